@@ -90,7 +90,7 @@ def to_env(cfg):
         if items:
             trs.append("^%s$@%s" % (fname(fn), ",".join(items)))
         if t["arg"] is not None:
-            args.append("^%s$@arg1/t%d%%rdi" % (fname(fn), t["arg"]))
+            args.append("^%s$@arg1/t%d%%stack+1" % (fname(fn), t["arg"]))
         if t["ret"]:
             rets.append("^%s$@retval" % fname(fn))
     if trs:
@@ -107,7 +107,10 @@ def to_env(cfg):
 
 
 def arg_size(t):
-    """what save_to_argbuf computes for `arg1/t<N>%rdi` (values > 1020: it fails)"""
+    """what save_to_argbuf computes for `arg1/t<N>%stack+1` (values > 1020: it fails).  A struct passed in a
+    register (`%rdi`) is not used: reg_idx and stack_ofs share a union in struct uftrace_arg_spec, so
+    mcount_get_struct_arg() also copies `size` bytes from the stack after the register part and runs
+    8 bytes over the reserved size (seen while building this harness; argument capture is C09's subject)."""
     if t["arg"] is None:
         return None
     return align(t["arg"], 4) if t["arg"] <= 1020 else t["arg"]
@@ -970,7 +973,7 @@ def run(ctx):
     ctx.coverage.update({
         "evaluations": total + asan_runs, "distinct_nontrivial": len(distinct),
         "rule": "corpus + directed histories, then random configurations (read=proc/statm|page-fault, time=, trace, "
-                "-A struct argument of 8..1100 bytes, -R, -t, -W cpu / var:wv8|wv4|wv1 in any order) x random call "
+                "-A struct-by-value stack argument of 8..1100 bytes, -R, -t, -W cpu / var:wv8|wv4|wv1 in any order) x random call "
                 "histories over 9 symbols with scripted clock (gaps 0..30 ns), page-fault/statm/cpu/variable values "
                 "changing between hooks, asynchronous events, 1-3 threads, -pg / cygprof / mixed hooks; every case is "
                 "run on the real libmcount and on the model in all 8 repaired/as-coded variants; distinct = distinct "
@@ -990,7 +993,7 @@ def run(ctx):
         "the as-coded F17c variant reads a word of stale/uninitialised memory at function entry; the harness prints that "
         "word before each hook and the model takes it as an input (cases where it cannot be read are compared "
         "with the repaired variant only)",
-        "argument payload contents are not compared (struct-by-value arguments copy one register), only sizes",
+        "argument payload contents are not compared, only sizes",
     ]
     return C.finish(ctx)
 
